@@ -7,6 +7,7 @@ mod dirgen;
 mod engine;
 mod gen;
 mod indep;
+mod indepcheck;
 mod props;
 
 use engine::*;
@@ -22,6 +23,7 @@ macro_rules! dispatch {
             "C11" => $f::<props::c11::C11>($($arg),*),
             "C12" => $f::<props::c12::C12>($($arg),*),
             "C13" => $f::<props::c13::C13>($($arg),*),
+            "C14" => $f::<props::c14::C14>($($arg),*),
             "C15" => $f::<props::c15::C15>($($arg),*),
             "C16" => $f::<props::c16::C16>($($arg),*),
             other => {
@@ -66,6 +68,7 @@ fn main() {
             }
             dispatch!(args[2].as_str(), replay_cmd, Path::new(&args[3]))
         }
+        "gen-corpus" => props::c14::gen_corpus(Path::new(&args[2]), args[3].parse().unwrap(), &args[4]),
         "replay-child" => dispatch!(args[2].as_str(), replay_child, Path::new(&args[3])),
         _ => usage(),
     };
